@@ -779,6 +779,16 @@ func (x *X) afterCallGhost(st *State, callee string, sig *types.Signature, args,
 			st.mem[k] = rt
 		}
 	}
+	// a function declared `propagates errors` must return the first error any callee gives it
+	if c := x.topC; c != nil && c.PropagatesErrors && protocolKind(sig) == "" {
+		if n := sig.Results().Len(); n > 0 && n == len(rets) && isErrorType(sig.Results().At(n-1).Type()) {
+			if e, ok := rets[n-1].(Term); ok {
+				pk := x.pendingErrKey()
+				cur := x.get(st, pk)
+				st.mem[pk] = x.vc.define("pendingErr", mkIte(mkEq(cur, intLit(0)), e, cur))
+			}
+		}
+	}
 	// pending error / failure of executor-protocol callees
 	if kind := protocolKind(sig); kind != "" && len(rets) == 2 {
 		s, e := rets[0].(Term), rets[1].(Term)
